@@ -224,6 +224,9 @@ class PiecewiseEstimator(BaseEstimator):
                 )
         if isinstance(X, pandas.DataFrame):
             X = X.values
+        if isinstance(y, pandas.Series):
+            # rows are taken by position, not by label
+            y = y.values
         if isinstance(X, list):
             raise TypeError("X cannot be a list.")
         binner = clone(self.binner)
